@@ -7,7 +7,7 @@ import InfluxQL.Lemmas.ScanNumber
 import InfluxQL.Lemmas.Prec
 import InfluxQL.Lemmas.IntLit
 import InfluxQL.Lemmas.Digits
-import InfluxQL.Props.C06
+import InfluxQL.Lemmas.QuoteSpell
 import InfluxQL.Lemmas.RegexRoundTrip
 /-
 Print → parse for expressions (C03, re-parsing half on the real parser and printer).
